@@ -3,6 +3,7 @@ From Coq Require Import List Bool Arith Lia.
 Import ListNotations.
 From GV Require Import gen.Gen_memo C01.Heap C01.HeapLemmas C01.Model C01.Lemmas1 C05.Model.
 From GV Require Export C05.Lemmas1.
+From GV Require Import C05.Post C05.PostLemmas.
 
 Lemma coherentE_empty_memo : forall den h, coherentE den (mkstate h []).
 Proof. intros den h k a H. simpl in H. discriminate. Qed.
@@ -295,3 +296,9 @@ End Keyed.
 
 (* re-export under this module's name (Property.v refers to Lemmas.<name>) *)
 Definition evalE_good := Lemmas1.evalE_good.
+(* post-processing reads of cached values (PostLemmas.v) *)
+Definition post_reads_fresh := PostLemmas.post_reads_fresh.
+Definition inplace_post_refuted := PostLemmas.inplace_post_refuted.
+Definition safe_prog_sound := PostLemmas.safe_prog_sound.
+Definition cached_values_never_written := PostLemmas.cached_values_never_written.
+Definition post_table_rows := PostLemmas.post_table_rows.
